@@ -4,6 +4,7 @@ Property theorems only; helper lemmas live in `KrillModel/Ca/Lemmas*.lean`.
 -/
 import KrillModel.Ca.Preds
 import KrillModel.Ca.LemmasNoOver
+import KrillModel.Ca.LemmasKeySync
 namespace KM.Props.C02
 open KM KM.CaK KM.Res KM.AMap
 
@@ -163,5 +164,152 @@ example :
 example :
     (get (Sys.run {} (staleHistory.take 8)).ca.classes 0).map (fun rc => (rc.certs.issued, rc.certs.suspended)) =
       some ([(6, { res := [1, 2], na := 61 })], [(6, { res := [1, 2], na := 60 })]) := by decide
+
+/-! ## Synchronisation converges and is then idempotent -/
+
+/-- A converged child: the sync round takes the "fetch entitlements" branch
+(`has_pending_requests` is false) and `UpdateEntitlements` emits **no event** – nothing is
+stored, the command history does not grow, the state is what it was.  For every state (reachable
+or not), every parent, every list. -/
+theorem sync_idempotent (s : Sys) (p : Handle) (ents : List Entitlement) (now : Int) (fresh : List KeyId)
+    (hrepo : s.ca.hasRepo = true) (hc : s.ca.convergedB p ents now = true) :
+    s.ca.hasPendingRequests p = false ∧
+    s.ca.process (.updateEntitlements p ents now fresh) = .ok [] ∧
+    s.next (.updateEntitlements p ents now fresh) = s := by
+  simp only [Ca.convergedB, Bool.and_eq_true, Bool.not_eq_true', List.all_eq_true, Bool.or_eq_true,
+    decide_eq_true_eq] at hc
+  obtain ⟨⟨hpend, hlisted⟩, hquiet⟩ := hc
+  -- no class is removed
+  have hrem : (s.ca.classes.filter fun q =>
+      decide (q.2.parent = p ∧ (!(ents.map (·.rcn)).contains q.2.parentRcn) = true)) = [] := by
+    apply List.filter_eq_nil_iff.mpr
+    intro q hq
+    simp only [decide_eq_true_eq, not_and, Bool.not_eq_true', Bool.not_eq_false]
+    intro hpar
+    rcases hlisted q hq with h | h
+    · simp [hpar] at h
+    · exact h
+  -- the loop emits nothing
+  have hloop : ∀ (l : List Entitlement) (next : Nat), (∀ ent ∈ l, ent ∈ ents) →
+      entitlementLoop s.ca p now l next fresh = .ok [] := by
+    intro l
+    induction l with
+    | nil => intro _ _; rfl
+    | cons ent l ih =>
+      intro next hl
+      have hq := hquiet ent (hl ent (List.mem_cons_self ..))
+      simp only [entitlementLoop]
+      cases hf : s.ca.findParentRc p ent.rcn with
+      | none => simp [hf] at hq
+      | some q =>
+        obtain ⟨rcn, rc⟩ := q
+        simp only [hf, List.isEmpty_iff] at hq
+        simp only [hrepo, Bool.not_true, Bool.false_eq_true, if_false,
+          ih next (fun e he => hl e (List.mem_cons_of_mem _ he)), hq, List.map_nil, List.nil_append]
+  have hproc : s.ca.process (.updateEntitlements p ents now fresh) = .ok [] := by
+    simp only [Ca.process, hloop ents s.ca.nextClass (fun _ h => h), hrem, List.map_nil, List.nil_append]
+  refine ⟨hpend, hproc, ?_⟩
+  simp [Sys.next, Sys.exec, hproc, Ca.applyAll, Objs.stepAll]
+
+/-- When does a class create no event for its entitlement: exactly when no key wants an update
+and every listed key is known (here for the single-key state). -/
+theorem active_quiet_iff (c : CertKey) (ent : Entitlement) (now : Int) :
+    (KeyState.active c).entitlementEvents ent now = [] ↔
+      c.wantsUpdate ent.res ent.na now = false ∧ ∀ k ∈ ent.issued, k = c.id := by
+  simp only [KeyState.entitlementEvents, KeyState.requestKeys, List.append_eq_nil_iff, List.map_eq_nil_iff,
+    List.filter_eq_nil_iff, KeyState.knows, KeyState.keyIds]
+  constructor
+  · rintro ⟨h1, h2⟩
+    refine ⟨?_, ?_⟩
+    · cases hw : c.wantsUpdate ent.res ent.na now
+      · rfl
+      · simp [hw] at h1
+    · intro k hk
+      have := h2 k hk
+      simpa using this
+  · rintro ⟨h1, h2⟩
+    refine ⟨by simp [h1], ?_⟩
+    intro k hk
+    simp [h2 k hk]
+
+/-- A key that does not want an update holds exactly the entitled resources. -/
+theorem not_wants_exact (c : CertKey) (res : ResSet) (na now : Int)
+    (h : c.wantsUpdate res na now = false) : seteq res c.cert.res = true := by
+  unfold CertKey.wantsUpdate at h
+  by_cases hs : c.cert.slash = true
+  · simp only [hs, Bool.not_true, Bool.false_eq_true, if_false] at h
+    by_cases he : seteq res c.cert.res = true
+    · exact he
+    · simp [he] at h
+  · simp [hs] at h
+
+/-
+Full statement: from any reachable parent/child pair with fixed `now`, ≤ 3 rounds of
+`syncParent` per level leave one current certificate per entitled class with exactly the
+entitled resources and no open requests; a further round emits no events.
+
+Proved (`sync_converges_partial`): the statement for one class's key-state machine
+(`Ca/KeySync.lean`) against a parent that answers every request with a certificate for the
+offered resources – from **every** well-formed key state, including every stage of a key roll
+and the `RollOld` arm of `append_entitlement_events`.  `sync_idempotent` above is the
+unrestricted `Sys`-level statement of the last sentence.  Missing for the full statement: the
+projection of the two-aggregate exchange (the parent's `entitlement_class` with the not-after
+"white lie", `issue_cert`, the child's manager steps) onto this machine is checked on traces by
+the `syskeys` driver and not proved.
+-/
+
+/-- From every well-formed key state: two rounds of (sync, activate, sync) and two more syncs
+leave the class `Active` with a single key, no open request, and a certificate for exactly the
+offered resources; a further sync or activation changes nothing. -/
+theorem sync_converges_partial (ks : KeyState) (hwf : ks.wf = true) (o : Offer) (now : Int) :
+    ∃ c, (((ks.round o now).round o now).syncStep o now).syncStep o now = .active c ∧
+      c.req = false ∧ seteq o.res c.cert.res = true ∧
+      (KeyState.active c).syncStep o now = .active c ∧ (KeyState.active c).activateStep = .active c := by
+  obtain ⟨h1, hwf1⟩ := abs_round hwf o now
+  obtain ⟨h2, hwf2⟩ := abs_round hwf1 o now
+  have hwf3 := wf_syncStep hwf2 o now
+  -- the abstract run ends quiet
+  have hq : (((ks.abs o now).round.round).syncStep.syncStep).quiet = true := by
+    generalize ks.abs o now = a
+    cases a with
+    | pending r => cases r <;> decide
+    | active c => obtain ⟨r, w⟩ := c; cases r <;> cases w <;> decide
+    | rollPending pr c => obtain ⟨r, w⟩ := c; cases pr <;> cases r <;> cases w <;> decide
+    | rollNew n c =>
+      obtain ⟨r, w⟩ := c; obtain ⟨r2, w2⟩ := n
+      cases r <;> cases w <;> cases r2 <;> cases w2 <;> decide
+    | rollOld c oreq owant =>
+      obtain ⟨r, w⟩ := c
+      cases r <;> cases w <;> cases oreq <;> cases owant <;> decide
+  rw [← h1, ← h2, ← abs_syncStep hwf2, ← abs_syncStep hwf3] at hq
+  generalize (((ks.round o now).round o now).syncStep o now).syncStep o now = fin at hq ⊢
+  cases fin with
+  | active c =>
+    obtain ⟨cid, ccert, creq⟩ := c
+    simp only [KeyState.abs, AState.quiet, CertKey.abs, Bool.and_eq_true, Bool.not_eq_true'] at hq
+    obtain ⟨hreq, hwant⟩ := hq
+    subst hreq
+    refine ⟨_, rfl, rfl, not_wants_exact _ _ _ _ hwant, ?_, rfl⟩
+    simp [KeyState.syncStep, KeyState.hasPending, KeyState.certRequests, KeyState.revokeRequest,
+      KeyState.requestKeys, Offer.ent, hwant]
+  | pending _ => simp [KeyState.abs, AState.quiet] at hq
+  | rollPending _ _ => simp [KeyState.abs, AState.quiet] at hq
+  | rollNew _ _ => simp [KeyState.abs, AState.quiet] at hq
+  | rollOld _ _ => simp [KeyState.abs, AState.quiet] at hq
+
+/-- Non-vacuity: the `RollOld` arm – the *old* key wants an update, the request is made for the
+current key, and the class still converges. -/
+example :
+    let ks : KeyState := .rollOld ⟨2, { res := [1, 2], na := 1000 }, false⟩ ⟨1, { res := [1, 2, 3], na := 1000 }, false⟩
+    let o : Offer := ⟨[1, 2], 1000⟩
+    ks.wf = true ∧ ks.requestKeys o.ent 0 = [2] ∧
+    (((ks.round o 0).round o 0).syncStep o 0).syncStep o 0 = .active ⟨2, o.cert, false⟩ := by decide
+
+/-- Non-vacuity of `sync_idempotent`: a converged single-class child. -/
+example :
+    (Sys.run {} [.repoUpdate [], .addParent 9,
+      .updateEntitlements 9 [⟨0, [1, 2], 100, []⟩] 0 [4],
+      .updateRcvdCert 0 4 { res := [1, 2], na := 100 } 50 []]).ca.convergedB 9 [⟨0, [1, 2], 100, [4]⟩] 0 = true := by
+  decide
 
 end KM.Props.C02
